@@ -23,10 +23,15 @@ ALLOWED_AXIOMS = {
     "FunctionalExtensionality.functional_extensionality_dep",
     "Classical_Prop.classic",
 }
+# specification axioms of the comparison primitives, DECLARED BY THE STANDARD LIBRARY (Floats.FloatAxioms); used only by
+# proofs/PavaFloatMonotone.v (monotonicity of the binary64 twin when no NaN occurs)
+FLOAT_SPEC_AXIOMS = {"eqb_spec", "ltb_spec", "leb_spec"}
 TRUSTED_BASE = [
     "Coq 8.16.1 kernel (coqc, full .vo builds; vm_compute in comparators; no native_compute)",
     "standard-library axioms only, as printed by Print Assumptions: " + ", ".join(sorted(ALLOWED_AXIOMS)),
-    "Coq's primitive binary64 floats (Floats.PrimFloat.* operations, kernel primitives; no FloatAxioms) in model/PavaFloat.v, the bit-exact twin of the mean PAVA",
+    "Coq's primitive binary64 floats (Floats.PrimFloat.* operations, kernel primitives) in model/PavaFloat.v, the bit-exact twin of the mean PAVA; "
+    "the standard library's specification axioms FloatAxioms.eqb_spec, FloatAxioms.ltb_spec, FloatAxioms.leb_spec (primitive comparisons = SpecFloat's) "
+    "under the three monotonicity theorems of proofs/PavaFloatMonotone.v (C12_float_monotone*), nowhere else",
     "Coq's primitive Uint63 integers with the standard library's specification axioms (Numbers.Cyclic.Int63.*): used only by corr/Decode.v to read float mantissas in generated case files; they appear in coqchk's cone of files importing it, never under a theorem",
     "translator translate/pyexpr.py + gen_r.py (Python ast -> Gallina), validated by round trip against the implementation",
     "skeleton/leaf extraction translate/skeleton.py and the committed skeleton files",
@@ -183,7 +188,9 @@ def compile_props(ctx, pid):
             return bool(toks) and toks <= {"float", "int", "bool", "Set", "comparison", "float_comparison", "float_class", "PrimFloat.float", "PrimInt63.int",
                                            "FloatClass.float_class", "PrimFloat.float_comparison", "PrimFloat.float_class"}
         prim = [a for a in axs if primitive(a)]
-        bad = [a for a in axs if a not in ALLOWED_AXIOMS and a not in prim]
+        fspec = [a for a in axs if a.split(".")[-1] in FLOAT_SPEC_AXIOMS and a.split(".")[:-1] in ([], ["FloatAxioms"], ["Floats", "FloatAxioms"])
+                 and "Prim2SF" in decl.get(a, "")]
+        bad = [a for a in axs if a not in ALLOWED_AXIOMS and a not in prim and a not in fspec]
         ctx.assumptions[n] = axs
         if not ctx.ob(f"theorem {n}", "theorem", not bad, "axioms: " + ", ".join(axs)):
             allok = False
@@ -206,11 +213,13 @@ def coqchk(ctx, pid):
     # they are the standard library's, are named in the trusted base, and never occur under Print Assumptions of a theorem
     # ... and Coq's primitive float operations (Floats.PrimFloat.*: kernel primitives used by model/PavaFloat.v, the bit-exact
     # binary64 twin; the specification axioms of Floats.FloatAxioms are NOT among them and would be flagged)
-    prim = sorted(a for a in short if a.startswith("Numbers.Cyclic.Int63.") or a.startswith("Floats.PrimFloat."))
+    # coqchk -o lists every axiom of every LOADED library: Floats.FloatAxioms (loaded by proofs/PavaFloatMonotone.v, C12 only)
+    # declares 24 specification axioms, of which Print Assumptions shows three under the C12_float_monotone* theorems
+    prim = sorted(a for a in short if a.startswith("Numbers.Cyclic.Int63.") or a.startswith("Floats.PrimFloat.") or a.startswith("Floats.FloatAxioms."))
     short = {a for a in short if a not in prim}
-    bad = [a for a in short if a not in ALLOWED_AXIOMS]
+    bad = [a for a in short if a not in ALLOWED_AXIOMS and a not in {"Floats.FloatAxioms." + x for x in FLOAT_SPEC_AXIOMS}]
     clean = all("<none>" in m.group(i) for i in (2, 3, 4))
-    ctx.assumptions["coqchk -o (whole dependency cone)"] = sorted(short) + (["Numbers.Cyclic.Int63.* / Floats.PrimFloat.* (%d stdlib primitives and Uint63 specification axioms via corr/Decode.v and model/PavaFloat.v)" % len(prim)] if prim else [])
+    ctx.assumptions["coqchk -o (whole dependency cone)"] = sorted(short) + (["Numbers.Cyclic.Int63.* / Floats.PrimFloat.* / Floats.FloatAxioms.* (%d stdlib primitives and the specification axioms of the loaded libraries Uint63 (corr/Decode.v) and FloatAxioms (proofs/PavaFloatMonotone.v); per theorem see Print Assumptions)" % len(prim)] if prim else [])
     return ctx.ob("coqchk re-check of the property file and its dependency cone (axioms within the allowed list; no type-in-type, unsafe fixpoints or assumed positivity)",
                   "theorem", not bad and clean, out[-1200:])
 
